@@ -91,6 +91,8 @@ THEOREMS = [
     'C17.gen_ddSolveArgs_eq_model', 'C17.gen_ddInitSolves_eq_model', 'C17.gen_dispatchKind_eq_model', 'C17.gen_axesStep_eq_model',
     'C17.gen_disregistryInputs_eq_model', 'C17.DObj.solve_refuses_iff', 'C17.dispatchP_eq_byKind',
     'C17.disregistryCall_refuses_iff', 'C17.disregistryCall_rigid',
+    # stale reads, exactly: while G stays cached every read (Nye aside) returns the value of the inputs at the last solve_G
+    'C17.derived_frozen', 'C17.SObj.stale_read_frozen', 'C17.SObj.frozen_of_solve',
 ]
 PARTIAL = {
     'matchPQ_pairing': 'the conflict resolution of match_pq is proved for arbitrary lists (one q per p, the winner is the q closest '
@@ -114,7 +116,10 @@ PARTIAL = {
     'sqrt': 'the square root in match_pq is a parameter `mag`; solveG_undeformed assumes mag p > 0 and mag p ^ 2 = |p|^2',
     'stale_reads': 'the real Strain object keeps cached strain/rotation/invariants/Nye when p vectors, theta_max or the system '
                    'change WITHOUT solve_G/clear_properties (by design: solve_G is the documented way to re-solve); the model '
-                   'mirrors that (tied), the theorems state coherence only after solve_G, on fresh and on cleared objects',
+                   'mirrors that (tied); coherence is stated after solve_G, on fresh and on cleared objects.  What a stale read returns '
+                   'is now a theorem as well (SObj.stale_read_frozen, frozen_of_solve): while G stays cached, G / strain / rotation / '
+                   'invariants / angular velocity are those of the inputs at the last solve_G whatever the current inputs; the Nye '
+                   'tensor is excluded (solve_nye combines the cached G with the CURRENT neighbour vectors: a mixed value, tied only)',
     'cutoff_lists': 'that the list atomman builds for a complete-shell cutoff holds exactly the lattice neighbours is property C03; '
                     'the theorems take the list as given.  The cutoff= entry points are searched against an exact integer lattice '
                     'count (10-14 complete shells, up to 368 neighbours per atom and 4e5 pairs; > 4096 atoms)',
@@ -1076,7 +1081,7 @@ def _corr_disregcall(ctx, s0, s1, m, nn, planepos, exact, info, canon):
     np = _np()
     import atomman as am
     rng = random.Random(f"disregcall:{info.get('caseseed')}:{info.get('it')}:{len(canon)}:{planepos}")
-    form = rng.choice(['same', 'ints', 'ints', 'short'])
+    form = rng.choice(['same', 'ints', 'ints', 'short', 'pbc', 'pbc'])
     mm, n2, sB = list(m), list(nn), s1
     if form == 'ints':
         km, kn = rng.choice([1, 2, 4]), rng.choice([1, 2, 4, -1, -2])
@@ -1085,6 +1090,15 @@ def _corr_disregcall(ctx, s0, s1, m, nn, planepos, exact, info, canon):
             mm, n2, form = list(m), list(nn), 'same'           # (directions that are not axis vectors stay as they are)
     if form == 'short':
         sB = am.System(atoms=am.Atoms(atype=1, pos=s1.atoms.pos[:-1].copy()), box=s1.box, pbc=s1.pbc)
+    if form == 'pbc':
+        # the second system with OTHER periodicity flags: the displacement inside disregistry takes them (default 'final')
+        p2 = [bool(x) for x in s1.pbc]
+        kf = rng.randrange(3)
+        p2[kf] = not p2[kf]
+        sB = am.System(atoms=am.Atoms(atype=1, pos=s1.atoms.pos.copy()), box=s1.box, pbc=tuple(p2))
+        dq = _mi(np.array(sB.box.vects), p2, sB.atoms.pos - s0.atoms.pos, np)[2]
+        if not dq.all():
+            sB, form = s1, 'same'                   # (a displacement at a nearest-image tie under these flags)
     vec = lambda v: ' '.join(cm.fr(float(x)) for x in v)
     line = (f'disregcall {cm.fr(1e-8)} {cm.fr(1e-5)} {_cell(s0)} {_cell(sB)} {s0.natoms} {cm.frs(s0.atoms.pos)} '
             f'{sB.natoms} {cm.frs(sB.atoms.pos)} {vec(mm)} {vec(n2)} {vec(planepos)}')
@@ -5179,8 +5193,12 @@ MANIFEST = {
             'from the current sources (ast; the .pyx files after removal of the C declarations) the tensor formulas, the nye_c table and '
             'the Levi-Civita contraction of nye_tensor.py, the comparison operators and tie rules of match_pq, the slip accumulation, the '
             'branch chains of displacement() and of the five neighbour blocks, the getter / clear tables and the key lists as Lean '
-            'definitions (Generated/DeformSource.lean), each proved equal to the hand model (34 gen_..._eq_model theorems), plus 16 '
-            'statement pins for sequencing code. The model is also tied to the compiled/pure-python code by a differential '
+            'definitions (Generated/DeformSource.lean), each proved equal to the hand model (39 gen_..._eq_model theorems), plus 16 '
+            'statement pins for sequencing code; the argument handling of DifferentialDisplacement.solve is executed symbolically from '
+            'its statements into one Lean function and DObj.solve is proved to be exactly that followed by the loop '
+            '(gen_ddSolveArgs_eq_model), the broadcasting chain and axes step of set_p_vectors / nye_tensor and the inputs of disregistry '
+            '(projections, displacement call) are generated definitions too; disregistry is modelled from the two systems '
+            '(disregistryCall_rigid end to end, disregistryCall_refuses_iff), solve refuses exactly when DObj.solve_refuses_iff says. The model is also tied to the compiled/pure-python code by a differential '
             'run (exact on dyadic inputs) and the clauses are searched on the real code with an exact oracle.',
     'note': 'Partial: that a small deformation of a perfect crystal satisfies the pairing hypothesis of match_pq, and '
             'that numpy lstsq solves the normal equations, are checked on the implementation, not proved. Trusted: Lean '
